@@ -52,14 +52,14 @@ Definition hasHeaderValue (s value : bytes) : bool :=
 (* ---- RequestHeader.parseHeaders: what happens to h.connectionClose ----
    vals = the values of the Connection field lines in the order they appear;
    framing_close = closeAfterRequest || (contentLengthSeen && transferEncodingSeen).
-   The loop: close option present -> flag := true (line not stored); otherwise flag := false and the
+   The loop: close option present -> flag := true (line not stored); otherwise the flag is left alone and the
    line is appended to h.h.  Epilogue: framing_close forces true; an HTTP/1.0 request that is not
    closing yet closes unless the FIRST stored Connection line has a keep-alive option. *)
 Fixpoint conn_loop (vals : list bytes) (flag : bool) (stored : list bytes) : bool * list bytes :=
   match vals with
   | [] => (flag, stored)
   | v :: r => if hasHeaderValue v strClose then conn_loop r true stored
-              else conn_loop r false (stored ++ [v])
+              else conn_loop r flag (stored ++ [v])
   end.
 Definition peek_first (stored : list bytes) : bytes := match stored with v :: _ => v | [] => [] end.
 
@@ -93,9 +93,11 @@ Definition rhdr_reset_close (h : rhdr) : rhdr :=
 (* header.setNonSpecial(strConnection, v): setArgBytes replaces the first entry or appends *)
 Definition rhdr_set_nonspecial (h : rhdr) (v : bytes) : rhdr := {| rh_close := rh_close h; rh_conn := Some v |}.
 (* ResponseHeader.Set / Add / SetBytesKV ... ("Connection", v) -> setSpecialHeader:
-   bytes.Equal(strClose, v) ? SetConnectionClose : (ResetConnectionClose; setNonSpecial) *)
+   hasHeaderValue(v, strClose) ? (SetConnectionClose; delete every Connection entry of h.h)
+                               : (ResetConnectionClose; setNonSpecial) *)
 Definition rhdr_set_conn (h : rhdr) (v : bytes) : rhdr :=
-  if beq strClose v then rhdr_set_close h else rhdr_set_nonspecial (rhdr_reset_close h) v.
+  if hasHeaderValue v strClose then {| rh_close := true; rh_conn := None |}
+  else rhdr_set_nonspecial (rhdr_reset_close h) v.
 
 (* the values of the Connection lines AppendBytes writes, in order: the h.h entry, then "close" *)
 Definition rhdr_written (h : rhdr) : list bytes :=
